@@ -191,7 +191,7 @@ def run(rep):
     arcs += readcore.reference_archives(20000 if quick else 400000, limit=24 if quick else None)
     rcases, meta = [], []
     for name, arc in arcs:
-        small = len(arc) <= (6000 if quick else 30000)
+        small = len(arc) <= (6000 if quick else 8000)
         sizes = [s for s in readcore.PART_SIZES if small or s >= 7]
         if quick:
             sizes = r.sample(sizes, min(3, len(sizes)))
